@@ -157,6 +157,9 @@ def gen_case(seed, tier):
         i_act = 1 if config["i_edge"] == "pos" else 0
         o_act = 1 if config["o_edge"] == "pos" else 0
         p_pulse = wl.choice([0.1, 0.3, 0.6, 1.0])
+        p_prst = fl.choice([0, 0, 0.03, 0.1])
+        config["pulse_resets"] = bool(p_prst)
+        rlevels = {"ri": 0, "ro": 0}
         pending = False    # a pulse was sampled and no output edge has happened strictly after it
         i_val = 0
         for which in _clock_walk(wl, fl, ("i", "o"), nsteps, levels):
@@ -180,6 +183,12 @@ def gen_case(seed, tier):
                 levels[nme] ^= 1
                 ch[nme] = levels[nme]
             steps.append({"k": "ev", "l": ch})
+            if p_prst and fl.random() < p_prst:
+                # an (ordinary, synchronous) reset of the input or the output domain, pulsed at an arbitrary instant: no pulse may
+                # be invented or lost because of it
+                rn = fl.choice(["ri", "ro"])
+                rlevels[rn] ^= 1
+                steps.append({"k": "ev", "l": {rn: rlevels[rn]}})
             if async_glitch:
                 steps.append({"k": "set", "i": 0})
             if o_edge:
@@ -434,8 +443,8 @@ def run_case(case):
     else:
         dut = cdc.PulseSynchronizer("i", "o", stages=stages)
         i, o = dut.i, dut.o
-        domains = [DomainSpec("i", edge=config["i_edge"], reset_less=True),
-                   DomainSpec("o", edge=config["o_edge"], reset_less=True)]
+        domains = [DomainSpec("i", edge=config["i_edge"], reset_less=not config.get("pulse_resets")),
+                   DomainSpec("o", edge=config["o_edge"], reset_less=not config.get("pulse_resets"))]
         P.update(pulses=0, back_to_back_pulses=0, precondition_broken=0, coincident_pulse_and_o_edge=0, unsampled_input_glitch=0)
     if config.get("shadow_neg"):
         from amaranth.hdl import ClockDomain, Elaboratable
@@ -503,6 +512,8 @@ def run_case(case):
             lv["a"] = 0
         if kind == "ff":
             lv["r"] = 0
+        if kind == "pulse":
+            lv["ri"] = lv["ro"] = 0
         i_val = 0
         sets_since = 0
         same = [None, 0]
@@ -574,8 +585,8 @@ def run_case(case):
                     if nme == "a":
                         changes[(config["i_reset_of"] + ".rst") if config.get("i_reset_of") else "a"] = lvl
                         a_change = lvl
-                    elif nme == "r":
-                        changes["o.rst"] = lvl
+                    elif nme in ("r", "ri", "ro"):
+                        changes["i.rst" if nme == "ri" else "o.rst"] = lvl
                         stats["faults"]["reset"] = stats["faults"].get("reset", 0) + 1
                     else:
                         changes[(config.get("o_name", "o") if (nme == "o" and kind in ("async", "reset")) else nme) + ".clk"] = lvl
